@@ -243,12 +243,13 @@ def commentMetaline (o : Oracles) (md : Meta) (line : Bytes) : MetaStep :=
       | id :: _ => .metaSeq k id
     else .done (.ret .notHandled)
 
-/-- the line loop of `metaSeq`; `body` is the sequence read so far -/
+/-- the line loop of `metaSeq` over the lines already passed through `bytes.TrimSpace` (both
+    loops do `line, err = ReadBytes('\n'); r.line++; line = bytes.TrimSpace(line)`);
+    `body` is the sequence read so far -/
 def metaSeq (moltype id : Bytes) : List Bytes → St → Bytes → Call × List Bytes × St
   | [], st, _ => (.eof, [], st)
-  | raw :: ls, st, body =>
+  | line :: ls, st, body =>
     let st := { st with line := st.line + 1 }
-    let line := trimSpace raw
     if line.isEmpty then metaSeq moltype id ls st body
     else if line.length < 2 || !hasPrefix [35, 35] line then (.err .badSeq st.line, ls, st)
     else
@@ -265,12 +266,12 @@ def resToCall (r : Res Item) (line : Nat) : Call :=
   | .ret e => .err e (match e with | .badMoltype => 0 | .date => 0 | _ => line)
   | .panic p => .panicked p
 
-/-- one call of `Reader.Read`: the outcome, the lines not yet consumed, the reader state -/
+/-- one call of `Reader.Read` on the trimmed lines: the outcome, the lines not yet consumed, the
+    reader state -/
 def read (o : Oracles) : List Bytes → St → Call × List Bytes × St
   | [], st => (.eof, [], st)
-  | raw :: ls, st =>
+  | line :: ls, st =>
     let st := { st with line := st.line + 1 }
-    let line := trimSpace raw
     if line.isEmpty then read o ls st
     else if hasPrefix [35, 35] line then
       match commentMetaline o st.md (line.drop 2) with
@@ -292,8 +293,11 @@ def readCalls (o : Oracles) : Nat → List Bytes → St → List Call × St
       let (cs, st'') := readCalls o fuel ls' st'
       (c :: cs, st'')
 
+/-- the lines as the reader sees them: `ReadBytes('\n')` followed by `bytes.TrimSpace` -/
+def trimmedLines (bs : Bytes) : List Bytes := (lines bs).map trimSpace
+
 def readAll (o : Oracles) (bs : Bytes) : List Call × St :=
-  let ls := lines bs
+  let ls := trimmedLines bs
   readCalls o (ls.length + 1) ls {}
 
 /-! ### writer -/
